@@ -3,7 +3,7 @@
    under a umask without owner write/search bits), so the kernel's check on creating an entry
    never fails -- for EVERY archive, not only those written by Add.  The code before the fix
    fails on a read-only directory. *)
-From Oras Require Import Base.Prelude Model.TarRoundTrip Proofs.TarRoundTrip Proofs.TarModeSweep.
+From Oras Require Import Base.Prelude Generated.GC12 Model.TarRoundTrip Proofs.TarRoundTrip Proofs.TarModeSweep.
 
 Definition all_dirs_wx (f : fs) : Prop :=
   forall p m, fs_lookup f p = Some (NDir m) -> has_wx m = true.
@@ -26,7 +26,7 @@ Lemma has_wx_created umask m :
 Proof.
   intro Hu. destruct (umask_bits umask Hu) as [H6 H7].
   unfold has_wx. apply N.eqb_eq. apply N.bits_inj. intro i.
-  unfold create_mode, dir_create_bits, owner_rwx, owner_wx. bit_specs.
+  unfold create_mode, dir_create_bits, owner_rwx, c12_dir_owner_bits, owner_wx. bit_specs.
   destruct (N.eq_dec i 6) as [->|N6]; [const_bits; rewrite H6; var_bits; reflexivity|].
   destruct (N.eq_dec i 7) as [->|N7]; [const_bits; rewrite H7; var_bits; reflexivity|].
   assert (N.testbit 192 i = false) as ->.
